@@ -174,6 +174,7 @@ func (p *Program) verifyFunction(name string) (enc *Enc, err error) {
 			entry = append(entry, Le(SPtr(args[i]), alloc0))
 		case *types.Interface:
 			entry = append(entry, Implies(App(SBool, "ptrlike", App(SInt, "tag", args[i])), And(Le(Zero, App(SInt, "pl_Int", args[i])), Le(App(SInt, "pl_Int", args[i]), alloc0))))
+			entry = append(entry, Implies(App(SBool, "slicelike", App(SInt, "tag", args[i])), Le(SPtr(App(SSlice, "pl_Slice", args[i])), alloc0)))
 		}
 	}
 	// requires
